@@ -41,3 +41,43 @@ Theorem C01_invariant_reachable : forall svc prod t0 ops,
   Forall (benign svc prod) ops -> HInv svc prod (snd (hrun (hinit t0) ops)).
 Proof. exact invariant_reachable. Qed.
 Print Assumptions C01_invariant_reachable.
+
+(* ---- the round trip inside ONE long-lived process, key caches of any kind and capacity included ----------------
+   Histories: new factories (any cache policy - simple, LRU, LFU, SLRU, TinyLFU, any capacity >= 1, shared or per-session
+   intermediate-key caches; session caching off), new sessions, encrypts and decrypts under ANY fault plans, clock changes,
+   revocations; no session or factory is closed (long-lived sessions).  After ANY such history following a successful Encrypt,
+   a fault-free Decrypt in ANY live session whose partition id equals the encrypting session's returns exactly the payload:
+   no step of it fails - cache hit, stale entry, eviction victim, reload or metastore load - because every key a cache hands
+   out is still open (Envelope/Live.v: reference counts against a ghost map of holds) and names the right stored row
+   (Envelope/Coherent.v).  Side condition nz_store: no stored row has creation stamp 0, which the key cache reserves for
+   "latest" (true of any clock after 1970-01-01T00:00:59Z). *)
+From Asherah Require Import Envelope.Live Envelope.Rotation.
+
+Theorem C01_roundtrip_on_live_cached_sessions : forall svc prod h s1 x1 payload faults,
+  HInv svc prod h -> HIL svc prod (h_world h) -> nth_error (w_sessions (h_world h)) s1 = Some x1 ->
+  match hstep h (HEncrypt s1 payload faults) with
+  | (OEnc _ _, _, h1) =>
+      forall ops s2 x2, Forall (benignL svc prod) ops ->
+        let h2 := snd (hrun h1 ops) in
+        nz_store (w_store (h_world h2)) -> nth_error (w_sessions (h_world h2)) s2 = Some x2 -> p_id (ss_part x2) = p_id (ss_part x1) ->
+        fst (fst (hstep h2 (HDecrypt s2 (List.length (h_recs h)) [] []))) = ODec (Some payload)
+  | _ => True
+  end.
+Proof. exact encrypt_then_decrypt_live. Qed.
+Print Assumptions C01_roundtrip_on_live_cached_sessions.
+
+(* both invariants hold in every state such a history reaches from the empty process *)
+Theorem C01_live_invariants_reachable : forall svc prod t0 ops,
+  Forall (benignL svc prod) ops -> HInv svc prod (snd (hrun (hinit t0) ops)) /\ HIL svc prod (h_world (snd (hrun (hinit t0) ops))).
+Proof. exact live_invariants_reachable. Qed.
+Print Assumptions C01_live_invariants_reachable.
+
+(* the premises are met by a history with two partitions, a rotation and an expired system key, and the conclusion is about
+   something: in it, session 3 (partition "p") decrypts record 1, written 70 s and one rotation earlier by session 1 *)
+Example C01_live_nonvacuous :
+  Forall (benignL (s "svc") (s "prod")) Rotation.witness_expiry /\
+  nz_storeb (w_store (h_world (snd (hrun (hinit Rotation.t0) Rotation.witness_expiry)))) = true /\
+  fst (fst (hstep (snd (hrun (hinit Rotation.t0) Rotation.witness_expiry)) (HDecrypt 3 1 [] []))) = ODec (Some 2%nat).
+Proof.
+  split; [repeat constructor; cbn; try exact I|]. split; vm_compute; reflexivity.
+Qed.
